@@ -30,6 +30,7 @@ var formatNewDecoder = map[string]string{
 func checkC16(c *an.Ctx) {
 	c.Rule("C16.1", "registry (E9): unmarshalData dispatches, case-insensitively, .yaml/.yml → yaml.v2, .json → encoding/json, .toml → go-toml; each case only decodes the whole input into the one map that is returned unmodified; any other extension is an error; readURL/readFile derive the extension from content type / path only")
 	c.Rule("C16.2", "one decode path (E4): mapstructure.NewDecoder has one caller with one configuration; every configDefinition is produced by it; Load and LoadGlobalConfig both go load → decode → buildFromDefinition")
+	c.Rule("C16.4", "closed schema (E9 over types): no field reachable from configDefinition has an interface type — every leaf is a string, bool, duration or a list/map of those, so mapstructure's weak conversion erases the decoders' dynamic types (YAML int, TOML int64, JSON float64; yaml.v2's map[interface{}]interface{}) before the configuration is built")
 	c.Rule("C16.3", "format-blindness (E4): outside unmarshalData/readURL/readFile nothing in internal/config looks at a file extension, a content type, or at decoder-specific dynamic types")
 	c.NotDecided = append(c.NotDecided, "that the three libraries produce maps mapstructure decodes identically (key types, numeric types, YAML 1.1 booleans, durations) — the property proper", "directory imports match *.yaml only (observation)")
 	p := c.P
@@ -437,6 +438,9 @@ func checkC16(c *an.Ctx) {
 		loadPipeline(c, "C16.2", f, map[string]bool{"pipeline": true}, true)
 	}
 
+	// C16.4: the definition schema is closed under decoder-independent types
+	closedSchema(c, "C16.4")
+
 	// C16.3
 	allowed := deciders
 	clean := true
@@ -549,4 +553,57 @@ func isDecodeHook(sig *types.Signature) bool {
 		}
 	}
 	return true
+}
+
+// closedSchema checks C16.4.
+func closedSchema(c *an.Ctx, rule string) {
+	sp := c.P.Pkg("internal/config")
+	if sp == nil {
+		return
+	}
+	root := sp.Type("configDefinition")
+	if root == nil {
+		c.Und(rule, "config.configDefinition", token.NoPos, "configDefinition not found")
+		return
+	}
+	seen := map[types.Type]bool{}
+	var open []string
+	nFields := 0
+	var walk func(t types.Type, path string)
+	walk = func(t types.Type, path string) {
+		if seen[t] {
+			return
+		}
+		seen[t] = true
+		switch u := t.Underlying().(type) {
+		case *types.Interface:
+			open = append(open, path)
+		case *types.Pointer:
+			walk(u.Elem(), path)
+		case *types.Slice:
+			walk(u.Elem(), path+"[]")
+		case *types.Array:
+			walk(u.Elem(), path+"[]")
+		case *types.Map:
+			walk(u.Key(), path+"[key]")
+			walk(u.Elem(), path+"[]")
+		case *types.Struct:
+			// library types (time.Duration is not a struct; a struct from another module is a leaf)
+			if n, ok := t.(*types.Named); ok && n.Obj().Pkg() != nil && !strings.HasPrefix(n.Obj().Pkg().Path(), an.ModulePath) {
+				return
+			}
+			for i := 0; i < u.NumFields(); i++ {
+				nFields++
+				f := u.Field(i)
+				delete(seen, f.Type()) // the same leaf type under another field is another path
+				if _, isBasic := f.Type().Underlying().(*types.Basic); isBasic {
+					continue
+				}
+				walk(f.Type(), path+"."+f.Name())
+			}
+		}
+	}
+	walk(root.Type(), "configDefinition")
+	sort.Strings(open)
+	c.Check(len(open) == 0 && nFields > 10, rule, "config.configDefinition:closed", root.Pos(), fmt.Sprintf("no interface-typed field among the %d fields reachable from configDefinition", nFields), fmt.Sprintf("the definition keeps decoder-specific values: %v have an interface type, so a number arrives as int from YAML, int64 from TOML and float64 from JSON (and nested YAML maps as map[interface{}]interface{}) and the three formats load differently", open))
 }
